@@ -205,6 +205,12 @@ func runC10(c *engine.Ctx) {
 
 	// ---- R12 ----
 	checkWrapperCloseFns(c, "R12")
+
+	// ---- R13 a route is removed under the same (lower-cased) key it was stored under (shared with C06.R3) ----
+	checkHostIndexLowered(c, "R13")
+
+	// ---- R14 ----
+	checkOrderedHandlers(c, "R14")
 }
 
 // checkQueuedClosureCaptures: a closure that is stored for later execution (appended to a closeFuncs-like slice field)
@@ -1113,4 +1119,69 @@ func checkWrapperCloseFns(c *engine.Ctx, rule string) {
 		})
 	}
 	c.Floor(n, 6)
+}
+
+// checkOrderedHandlers: control messages that change the session's proxy table (NewProxy, CloseProxy) are handled in
+// the order they arrive — their handlers are registered directly, not through msg.AsyncHandler. A client reload sends
+// CloseProxy immediately followed by NewProxy for the same name; if the close runs in a detached goroutine the
+// registration meets the old proxy still holding its name and port and is refused.
+func checkOrderedHandlers(c *engine.Ctx, rule string) {
+	c.Rule(rule, "dispatcher handlers that (transitively) write a session's proxy table are registered synchronously, so a close request is complete before the next message of the session is handled")
+	p := c.P
+	regH := method(c, "pkg/msg", "Dispatcher", "RegisterHandler")
+	async := funcObj(c, "pkg/msg", "AsyncHandler")
+	proxiesF := field(c, "server", "Control", "proxies")
+	if regH == nil || async == nil || proxiesF == nil {
+		return
+	}
+	var writes func(f *ssa.Function, depth int, seen map[*ssa.Function]bool) bool
+	writes = func(f *ssa.Function, depth int, seen map[*ssa.Function]bool) bool {
+		if f == nil || f.Blocks == nil || seen[f] || depth > 3 {
+			return false
+		}
+		seen[f] = true
+		hit := false
+		for _, g := range append([]*ssa.Function{f}, allAnon(f)...) {
+			engine.ForEachInstr(g, func(in ssa.Instruction) {
+				switch x := in.(type) {
+				case *ssa.MapUpdate:
+					if lf, _ := engine.LoadedField(x.Map); lf == proxiesF {
+						hit = true
+					}
+				case ssa.CallInstruction:
+					if b, ok := x.Common().Value.(*ssa.Builtin); ok && b.Name() == "delete" {
+						if lf, _ := engine.LoadedField(x.Common().Args[0]); lf == proxiesF {
+							hit = true
+						}
+					}
+					if _, isGo := in.(*ssa.Go); isGo {
+						return
+					}
+					if cf := engine.CalleeFn(x); cf != nil && cf.Pkg != nil && engine.IsRepoPkg(cf.Pkg.Pkg.Path()) && writes(cf, depth+1, seen) {
+						hit = true
+					}
+				}
+			})
+		}
+		return hit
+	}
+	n := 0
+	for _, f := range p.RepoFuncs() {
+		for _, call := range engine.CallsTo(f, regH) {
+			args := engine.CallArgs(call)
+			h := args[2]
+			isAsync := false
+			if hc, ok := h.(*ssa.Call); ok && engine.SameFunc(engine.CalleeObj(hc), async) {
+				isAsync = true
+				h = hc.Call.Args[0]
+			}
+			hf := funcValueOf(p, h)
+			if hf == nil || !writes(hf, 0, map[*ssa.Function]bool{}) {
+				continue
+			}
+			n++
+			c.Check(!isAsync, p.FuncName(f)+">"+p.FuncName(hf), call.Pos(), 2, nil, "handler %s changes the session's proxy table and is registered synchronously", p.FuncName(hf))
+		}
+	}
+	c.Floor(n, 2)
 }
